@@ -140,6 +140,9 @@ class Pins:
             out |= CAPS["listlike"] | {"iterate"}
         if isinstance(S, ast.Call) and norm(S.func) in ("list", "tuple") and S.args:
             out |= CAPS["listlike"]
+        if isinstance(S, ast.Call) and norm(S.func) in ("enumerate", "reversed", "zip") and S.args and \
+                all({"iterate", "tuple"} & self.caps(a_, node, fi, depth + 1) for a_ in S.args if not isinstance(a_, ast.Constant)):
+            out |= {"iterate", "list", "tuple", "enumerate"}
         if isinstance(S, ast.Name):
             binds = self.ctx.types.local_bindings(fi, S.id)
             # single local alias of a pinned expression
